@@ -513,7 +513,7 @@ def run_shard(spec, seed, tier):
     elif spec["kind"] == "fuzz":
         _fuzz(res, seed)
     else:
-        n = 1500 if tier == "quick" else 20000
+        n = 4000 if tier == "quick" else 60000
         hyp.search(res, st_case(), body, seed, n)
     return res
 
